@@ -17,7 +17,9 @@ package verifharness
 //           | S <c|d> <ignore> <fn …>                        sub-call to a system contract
 //               fn := delegate V A | undelegate V A | redelegate V V A | withdraw V | vote PID OPT | votew PID n (OPT W)^n
 //                     | bads | badg                            (call data that is no function of staking / gov)
-//           | L <ntopics> <topic>* <data>                      LOGn by the helper contract (look-alike events)
+//               kinds: c CALL, d DELEGATECALL, s STATICCALL, v CALL with value 1 (system contracts only)
+//           | K <ignore> <new address> <salt> <n> node^n       CREATE2 of a fresh helper contract, then CALL it with the n segments
+//           | L <ntopics> <topic>* <data>                      LOGn (n <= 2) by the helper contract (look-alike events)
 //           | R                                                REVERT
 //     V := <string hex>:<class>   class k<i> = operator address of validator i, u = well formed / no validator, x = malformed
 //   hook <n> (<address> <ntopics> <topic>* <data> <parsed>)^n -> <status> <dump>   (PostTxProcessing on an injected receipt)
@@ -43,6 +45,7 @@ import (
 	stakingtypes "github.com/cosmos/cosmos-sdk/x/staking/types"
 	"github.com/ethereum/go-ethereum/common"
 	ethtypes "github.com/ethereum/go-ethereum/core/types"
+	"github.com/ethereum/go-ethereum/crypto"
 
 	"github.com/teleport-network/teleport/syscontracts"
 	govcontract "github.com/teleport-network/teleport/syscontracts/gov"
@@ -72,6 +75,7 @@ type c17Node struct {
 	badGov bool
 	topics []common.Hash
 	data   []byte
+	salt   common.Hash // K
 }
 
 type c17Toks struct {
@@ -136,6 +140,15 @@ func c17ParseNode(p *c17Toks) *c17Node {
 	case "P":
 		n := &c17Node{tag: 'P', kind: p.next()[0], ignore: p.next() != "0"}
 		n.target = common.BytesToAddress(unhx(p.next()))
+		k := int(p.nat())
+		for i := 0; i < k; i++ {
+			n.body = append(n.body, c17ParseNode(p))
+		}
+		return n
+	case "K":
+		n := &c17Node{tag: 'K', kind: 'c', ignore: p.next() != "0"}
+		n.target = common.BytesToAddress(unhx(p.next()))
+		n.salt = common.BytesToHash(unhx(p.next()))
 		k := int(p.nat())
 		for i := 0; i < k; i++ {
 			n.body = append(n.body, c17ParseNode(p))
@@ -213,6 +226,12 @@ func (w *c17World) nodeToks(n *c17Node) string {
 			s += " " + w.nodeToks(b)
 		}
 		return s
+	case 'K':
+		s := fmt.Sprintf("K %s %s %s %d", b01(n.ignore), hx(n.target.Bytes()), hx(n.salt.Bytes()), len(n.body))
+		for _, b := range n.body {
+			s += " " + w.nodeToks(b)
+		}
+		return s
 	case 'S':
 		return fmt.Sprintf("S %c %s %s", n.kind, b01(n.ignore), w.callToks(n.call))
 	case 'B':
@@ -265,8 +284,13 @@ func (w *c17World) sysTarget(n *c17Node) common.Address {
 }
 
 func c17KindByte(k byte) byte {
-	if k == 'd' {
+	switch k {
+	case 'd':
 		return 1
+	case 's':
+		return 5
+	case 'v':
+		return 6
 	}
 	return 0
 }
@@ -280,9 +304,14 @@ func (w *c17World) segment(n *c17Node) []byte {
 		return c17SegCall(c17KindByte(n.kind), n.ignore, w.sysTarget(n), w.packCall(n.call))
 	case 'B':
 		return c17SegCall(c17KindByte(n.kind), n.ignore, w.sysTarget(n), []byte{0xde, 0xad, 0xbe, 0xef, 0, 1})
+	case 'K':
+		return c17SegCreate2(n.ignore, n.salt, w.segments(n.body))
 	case 'L':
 		if len(n.topics) == 0 {
 			return c17SegLog0(n.data)
+		}
+		if len(n.topics) >= 2 {
+			return c17SegLog2(n.topics[0], n.topics[1], n.data)
 		}
 		return c17SegLog1(n.topics[0], n.data)
 	default:
@@ -313,9 +342,15 @@ func (w *c17World) interp(f c17Frame, ns []*c17Node, cnt map[common.Address]int)
 	var out []c17Emit
 	for _, n := range ns {
 		switch n.tag {
-		case 'P':
+		case 'P', 'K':
+			if n.kind == 's' { // STATICCALL into a helper contract: its first SSTORE fails
+				if !n.ignore {
+					return false, nil
+				}
+				continue
+			}
 			f2 := f
-			if n.kind == 'c' {
+			if n.kind != 'd' {
 				f2 = c17Frame{self: n.target, sender: f.self}
 			}
 			c2 := map[common.Address]int{}
@@ -333,8 +368,13 @@ func (w *c17World) interp(f c17Frame, ns []*c17Node, cnt map[common.Address]int)
 				return false, nil
 			}
 		case 'S':
-			if n.kind == 'c' {
+			switch n.kind {
+			case 'c':
 				out = append(out, c17Emit{sender: f.self, call: n.call})
+			case 's', 'v': // LOG inside a static frame / value sent to a non-payable function: the contract frame fails
+				if !n.ignore {
+					return false, nil
+				}
 			}
 		case 'B':
 			if !n.ignore {
@@ -545,8 +585,38 @@ func (w *c17World) expectedCounters(ctx sdk.Context, cnt map[common.Address]int)
 	return "C:" + strings.Join(cs, ",")
 }
 
-// apply returns the canonical op line and the implementation's observation.
+// apply returns the canonical op line and the implementation's observation (reduced to what the model describes in
+// the current regime: nothing after a slash, no balances / supply while rewards are outstanding).
 func (w *c17World) apply(r *Rec, op string) (string, string) {
+	skip, mask := w.skip, w.maskB
+	c, out := w.apply1(r, op)
+	switch strings.Fields(op)[0] {
+	case "tx", "hook", "burn", "fund", "rewardtx", "govburn", "slash", "allocate":
+		if skip {
+			if strings.HasPrefix(out, "ok") {
+				r.Count("postslash." + strings.Fields(op)[0] + ".ok")
+			}
+			return c, "skip"
+		}
+		if mask {
+			fs := strings.Fields(out)
+			for i, f := range fs {
+				if strings.HasPrefix(f, "B:") {
+					fs[i] = "B:~"
+				} else if strings.HasPrefix(f, "S:") {
+					fs[i] = "S:~"
+				}
+			}
+			if strings.HasPrefix(out, "ok") {
+				r.Count("rewards." + strings.Fields(op)[0] + ".ok")
+			}
+			return c, strings.Join(fs, " ")
+		}
+	}
+	return c, out
+}
+
+func (w *c17World) apply1(r *Rec, op string) (string, string) {
 	f := strings.Fields(op)
 	switch f[0] {
 	case "topics":
@@ -573,8 +643,20 @@ func (w *c17World) apply(r *Rec, op string) (string, string) {
 		return w.applyHook(r, f)
 	case "burn":
 		return w.applyBurn(r, f)
+	case "fund": // mint bond-denomination coins to an address (endowment of a CREATE2 address before its creation)
+		w.hist = append(w.hist, op)
+		amt, _ := sdk.NewIntFromString(f[2])
+		c17Fund(w.app, w.ctx, unhx(f[1]), w.denom, amt)
+		return op, "ok " + w.dump(w.ctx)
 	case "slash":
-		return w.applySlash(r, f)
+		c, out := w.applySlash(r, f)
+		w.skip = true
+		return c, out
+	case "allocate": // staking rewards for every validator (oracle on real state stays exact; the model does no reward arithmetic)
+		w.hist = append(w.hist, op)
+		w.allocateRewards()
+		w.maskB = true
+		return op, "ok"
 	case "govburn":
 		return w.applyGovBurn(r, f)
 	}
@@ -635,7 +717,13 @@ func (w *c17World) applyTx(r *Rec, f []string, rewards bool) (string, string) {
 	// ---- the property's expectation, by construction + reference execution on a branch of the pre-state
 	cnt := map[common.Address]int{}
 	rootFrame := c17Frame{self: from, sender: from}
-	evmOK, emits := w.interp(rootFrame, []*c17Node{{tag: root.tag, kind: 'c', ignore: false, target: root.target, body: root.body, call: root.call, badGov: root.badGov}}, cnt)
+	rootKind := byte('c')
+	value := big.NewInt(0)
+	if root.tag != 'P' && root.kind == 'v' { // value-bearing transaction into a system contract
+		rootKind = 'v'
+		value = big.NewInt(1)
+	}
+	evmOK, emits := w.interp(rootFrame, []*c17Node{{tag: root.tag, kind: rootKind, ignore: false, target: root.target, body: root.body, call: root.call, badGov: root.badGov}}, cnt)
 	refCtx, _ := w.ctx.CacheContext()
 	nativeOK := evmOK && w.reference(refCtx, emits)
 	want := before
@@ -644,7 +732,7 @@ func (w *c17World) applyTx(r *Rec, f []string, rewards bool) (string, string) {
 		want = w.expectedCounters(w.ctx, cnt) + d[strings.Index(d, " B:"):]
 	}
 
-	res := w.sendTx(w.eoaIndex(from), to, data)
+	res := w.sendTx(w.eoaIndex(from), to, value, data)
 	after := w.dump(w.ctx)
 	r.Count("tx." + res.status)
 	r.Count("root." + string(root.tag))
@@ -667,6 +755,8 @@ func (w *c17World) applyTx(r *Rec, f []string, rewards bool) (string, string) {
 			switch {
 			case e.sender == from:
 				r.Count("caller.eoa")
+			case e.sender != w.proxies[0] && e.sender != w.proxies[1]:
+				r.Count("caller.created")
 			default:
 				r.Count("caller.contract")
 			}
@@ -1063,11 +1153,14 @@ var _ = bytes.Equal
 // ---- generator ---------------------------------------------------------------------------------------------------
 
 type c17Gen struct {
-	w     *c17World
-	r     *Rec
-	rewardMode bool // calls for the final `rewardtx`: mostly withdraw
-	govDrained bool // a burn op took coins out of the gov module account in this history (govburn would then fail for lack of funds)
-	valid bool // mostly-valid stream: every system-contract call of the transaction is chosen to succeed
+	w          *c17World
+	r          *Rec
+	saltN      int
+	pre        []string        // operations to run before the transaction being generated (funding of CREATE2 addresses)
+	shape      map[string]bool // shape features of the transaction being generated
+	rewardMode bool            // calls for the final `rewardtx`: mostly withdraw
+	govDrained bool            // a burn op took coins out of the gov module account in this history (govburn would then fail for lack of funds)
+	valid      bool            // mostly-valid stream: every system-contract call of the transaction is chosen to succeed
 }
 
 func (g *c17Gen) pick(n int) int { return g.r.Rng.Intn(n) }
@@ -1089,7 +1182,7 @@ func (g *c17Gen) valString(mostlyValid bool) string {
 		s := w.vals[1].String()
 		return s[:len(s)-1] + string("qpzry9x8"[g.pick(8)]) // (probably) broken checksum
 	case 4:
-		return strings.ToUpper(w.vals[2].String())
+		return strings.ToUpper(w.vals[len(w.vals)-1].String())
 	case 5:
 		return "abc"
 	case 6:
@@ -1110,6 +1203,9 @@ func (g *c17Gen) amount(who common.Address, val string, fn string) *big.Int {
 		if d, ok := w.app.StakingKeeper.GetDelegation(w.ctx, who.Bytes(), va); ok {
 			del = d.Shares.TruncateInt().BigInt()
 		}
+	}
+	if w.maskB { // rewards outstanding: the model's balances are stale, keep clear of balance boundaries
+		bal = new(big.Int).Mul(e18, big.NewInt(7))
 	}
 	ref := bal
 	if fn != "delegate" {
@@ -1156,7 +1252,10 @@ func (g *c17Gen) validCall(who common.Address) *c17Call {
 	var dels []dl
 	for _, v := range w.vals {
 		if d, ok := w.app.StakingKeeper.GetDelegation(w.ctx, who.Bytes(), v); ok {
-			dels = append(dels, dl{v, d.Shares.TruncateInt().BigInt()})
+			val, _ := w.app.StakingKeeper.GetValidator(w.ctx, v)
+			if t := val.TokensFromShares(d.Shares).TruncateInt(); t.IsPositive() {
+				dels = append(dels, dl{v, t.BigInt()})
+			}
 		}
 	}
 	x := g.pick(100)
@@ -1238,6 +1337,9 @@ func (g *c17Gen) overflowCall(who common.Address) *c17Call {
 		}
 		val, _ := w.app.StakingKeeper.GetValidator(w.ctx, v)
 		den := new(big.Int).Mul(val.Tokens.BigInt(), c17Pow10(18).BigInt())
+		if den.Sign() == 0 { // validator slashed to zero
+			continue
+		}
 		thr := new(big.Int).Div(new(big.Int).Sub(new(big.Int).Lsh(big.NewInt(1), 316), big.NewInt(1)), den)
 		var amt *big.Int
 		switch g.pick(4) {
@@ -1375,8 +1477,12 @@ func (g *c17Gen) lookalike(claim common.Address) *c17Node {
 		panic(err)
 	}
 	nd := &c17Node{tag: 'L', topics: []common.Hash{topic}, data: data}
-	if g.pick(8) == 0 {
+	switch g.pick(8) {
+	case 0:
 		nd.topics = nil
+	case 1, 2: // LOG2: the event id plus an extra topic (the claimed sender, as if the field were indexed)
+		nd.topics = append(nd.topics, common.BytesToHash(claim.Bytes()))
+		g.shape["log2"] = true
 	}
 	return nd
 }
@@ -1403,14 +1509,37 @@ func (g *c17Gen) body(self common.Address, depth int, victim common.Address) []*
 			out = append(out, &c17Node{tag: 'S', kind: 'd', ignore: g.pick(4) == 0, call: g.call(victim)})
 		case x < 75:
 			out = append(out, g.lookalike([]common.Address{victim, self, w.eoas[g.pick(3)]}[g.pick(3)]))
-		case x < 90 && depth < 3:
+			g.shape["lookalike"] = true
+		case x < 84 && depth < 3:
 			kind := byte('c')
 			tgt := w.proxies[g.pick(2)]
 			nself := tgt
-			if g.pick(4) == 0 {
+			switch g.pick(8) {
+			case 0, 1:
 				kind, nself = 'd', self
+			case 2: // STATICCALL into a helper contract: fails at its first SSTORE
+				// (a failing static / value frame burns all the gas forwarded to it, 63/64 of what is left: one per transaction)
+				if !g.gasBurnt() {
+					kind = 's'
+					g.shape["static"] = true
+				}
 			}
-			out = append(out, &c17Node{tag: 'P', kind: kind, ignore: g.pick(3) == 0, target: tgt, body: g.body(nself, depth+1, victim)})
+			out = append(out, &c17Node{tag: 'P', kind: kind, ignore: g.pick(3) == 0 || kind == 's', target: tgt, body: g.body(nself, depth+1, victim)})
+		case x < 88 && depth < 3 && !g.gasBurnt():
+			// CREATE2-deployed caller: a fresh helper contract at a new address calls the system contracts
+			g.saltN++
+			salt := crypto.Keccak256Hash([]byte(fmt.Sprintf("c17-salt-%d-%d-%d", g.r.Seed, g.r.Shard, g.saltN)))
+			na := c17Create2Addr(self, salt)
+			if g.pick(3) > 0 {
+				g.pre = append(g.pre, fmt.Sprintf("fund %s %s", hx(na.Bytes()), "100000000000000000000"))
+			}
+			g.shape["create2"] = true
+			out = append(out, &c17Node{tag: 'K', kind: 'c', ignore: g.pick(4) == 0, target: na, salt: salt, body: g.body(na, depth+1, victim)})
+		case x < 90 && !g.gasBurnt():
+			// STATICCALL / value-bearing CALL into a system contract: the contract frame fails, nothing is emitted
+			kind := "sv"[g.pick(2)]
+			g.shape[map[byte]string{'s': "static", 'v': "value"}[kind]] = true
+			out = append(out, &c17Node{tag: 'S', kind: kind, ignore: g.pick(3) > 0, call: g.call(self)})
 		case x < 94:
 			out = append(out, &c17Node{tag: 'B', kind: "cd"[g.pick(2)], ignore: g.pick(2) == 0, badGov: g.pick(2) == 0})
 		case x < 97:
@@ -1422,8 +1551,18 @@ func (g *c17Gen) body(self common.Address, depth int, victim common.Address) []*
 	return out
 }
 
+func (g *c17Gen) gasBurnt() bool { return g.shape["static"] || g.shape["value"] }
+
+// txOps: the funding operations of CREATE2 addresses (if any) followed by the transaction
+func (g *c17Gen) txOps() []string {
+	t := g.tx()
+	return append(g.pre, t)
+}
+
 func (g *c17Gen) tx() string {
 	w := g.w
+	g.pre = nil
+	g.shape = map[string]bool{}
 	g.valid = g.pick(100) < 60 || g.rewardMode
 	from := w.eoas[g.pick(len(w.eoas))]
 	var root *c17Node
@@ -1432,9 +1571,40 @@ func (g *c17Gen) tx() string {
 		root = &c17Node{tag: 'S', kind: 'c', call: g.call(from)}
 	case x < 43:
 		root = &c17Node{tag: 'B', kind: 'c', badGov: g.pick(2) == 0}
+	case x < 45: // value-bearing transaction straight into a system contract (functions are not payable)
+		root = &c17Node{tag: 'S', kind: 'v', call: g.call(from)}
+		g.shape["value"] = true
+	case x < 52:
+		// genuine system-contract events and look-alikes of the SAME contract in one receipt (an address filter hoisted
+		// out of the per-log loop, or applied to the first log only, would execute the look-alikes)
+		tgt := w.proxies[g.pick(2)]
+		var body []*c17Node
+		for i, n := 0, 2+g.pick(3); i < n; i++ {
+			switch g.pick(3) {
+			case 0:
+				body = append(body, &c17Node{tag: 'S', kind: 'c', call: g.validCall(tgt)})
+			case 1:
+				body = append(body, g.lookalike([]common.Address{from, tgt}[g.pick(2)]))
+			default:
+				body = append(body, &c17Node{tag: 'S', kind: 'c', call: &c17Call{fn: "vote", pid: 1, opt: uint32(1 + g.pick(4))}})
+				l := g.lookalike(from)
+				ev := govcontract.GovContract.ABI.Events["Voted"]
+				d, _ := ev.Inputs.Pack(from, uint64(1), uint32(1+g.pick(4)))
+				l.topics, l.data = []common.Hash{ev.ID}, d
+				body = append(body, l)
+			}
+		}
+		if g.pick(2) == 0 { // look-alike first
+			body = append([]*c17Node{g.lookalike(from)}, body...)
+		}
+		g.shape["mixed"] = true
+		root = &c17Node{tag: 'P', kind: 'c', target: tgt, body: body}
 	default:
 		tgt := w.proxies[g.pick(2)]
 		root = &c17Node{tag: 'P', kind: 'c', target: tgt, body: g.body(tgt, 1, from)}
+	}
+	for k := range g.shape {
+		g.r.Count("shape." + k)
 	}
 	return "tx " + hx(from.Bytes()) + " " + w.nodeToks(root)
 }
@@ -1607,7 +1777,21 @@ func TestC17(t *testing.T) {
 	r := NewRec(t, "C17")
 	defer r.Close()
 	w := newC17World()
+	var mod *c17Mod
 	one := func(op string) {
+		if strings.HasPrefix(op, "minit") || strings.HasPrefix(op, "recv ") {
+			// module-call path: two chains with light clients, created on first use
+			if mod == nil {
+				mod = newC17Mod(t)
+				if !strings.HasPrefix(op, "minit") {
+					c, out := mod.apply(r, "minit")
+					r.Op(c, out)
+				}
+			}
+			c, out := mod.apply(r, op)
+			r.Op(c, out)
+			return
+		}
 		c, out := w.apply(r, op)
 		r.Op(c, out)
 	}
@@ -1652,15 +1836,31 @@ func TestC17(t *testing.T) {
 			continue
 		}
 		steps := 4 + g.pick(14)
+		// regimes the driver's native model does not describe (the oracle on real state stays exact): a slash in the middle
+		// of the history (shares != tokens afterwards), or rewards allocated to all validators
+		special, at := g.pick(10), 1+g.pick(4)
 		for s := 0; s < steps; s++ {
+			if s == at && special == 0 {
+				one(fmt.Sprintf("slash %d %d", g.pick(3), []int{1, 5, 50, 100}[g.pick(4)]))
+			}
+			if s == at && special == 1 {
+				one("allocate")
+			}
 			switch x := g.pick(100); {
 			case x < 78:
-				one(g.tx())
+				for _, op := range g.txOps() {
+					one(op)
+				}
 			case x < 92:
 				one(g.hookOp())
 			default:
-				one(g.burnOp())
+				if !w.maskB {
+					one(g.burnOp())
+				}
 			}
+		}
+		if w.skip || w.maskB {
+			continue
 		}
 		switch g.pick(5) {
 		case 0:
@@ -1673,6 +1873,21 @@ func TestC17(t *testing.T) {
 			g.rewardMode = true
 			one("reward" + g.tx())
 			g.rewardMode = false
+		}
+	}
+	// ---- module-call path: packets from chain A whose call data reaches the system contracts of chain B
+	nrecv := 120
+	if r.Tier == "thorough" {
+		nrecv = 600
+	}
+	if n := envInt("VERIF_NRECV", -1); n >= 0 {
+		nrecv = int(n)
+	}
+	if nrecv > 0 {
+		one("minit")
+		gm := &c17Gen{w: mod.wb, r: r}
+		for i := 0; i < nrecv; i++ {
+			one(gm.recvOp(mod))
 		}
 	}
 }
